@@ -70,6 +70,7 @@ def main(argv=None):
         return 2
 
     env = child_env()
+    env.update(getattr(mod, "ENV", {}))
     if args.replay:
         shard_names = ["@replay:" + os.path.abspath(args.replay)]
     else:
